@@ -719,7 +719,7 @@ func (s *levelsController) subcompact(it y.Iterator, kr keyRange, cd compactDef,
 		var tableKr keyRange
 		for ; it.Valid(); it.Next() {
 			// See if we need to skip the prefix.
-			if len(cd.dropPrefixes) > 0 && hasAnyPrefixes(it.Key(), cd.dropPrefixes) {
+			if len(cd.dropPrefixes) > 0 && hasAnyPrefixes(y.ParseKey(it.Key()), cd.dropPrefixes) {
 				numSkips++
 				updateStats(it.Value())
 				continue
@@ -1006,6 +1006,9 @@ func buildChangeSet(cd *compactDef, newTables []*table.Table) pb.ManifestChangeS
 	return pb.ManifestChangeSet{Changes: changes}
 }
 
+// hasAnyPrefixes reports whether the user key s (without the timestamp suffix) starts with any
+// of the prefixes. Callers must strip the timestamp first: its leading bytes are 0xff for every
+// realistic version and would otherwise match a prefix that is longer than the user key.
 func hasAnyPrefixes(s []byte, listOfPrefixes [][]byte) bool {
 	for _, prefix := range listOfPrefixes {
 		if bytes.HasPrefix(s, prefix) {
